@@ -47,7 +47,7 @@ void pbt_generate(Rng& r, int size, Case& c) {
   //                          app pre ins rmit rmidx rmval rmfront rmback clear swap copy assign selfassign appendall insall resize reserve sort find appendptr selfref recreate eq
   static const int w03[] = {24, 8, 10, 8, 6, 5, 4, 4, 1, 4, 2, 2, 1, 3, 3, 5, 3, 4, 3, 3, 0, 1, 2};
   static const int w04[] = {18, 6, 8, 6, 5, 5, 3, 3, 2, 3, 4, 4, 5, 5, 5, 5, 2, 2, 1, 2, 10, 4, 1};
-  static const int w05[] = {30, 10, 12, 8, 0, 3, 3, 3, 0, 8, 1, 1, 0, 2, 2, 0, 0, 0, 1, 0, 0, 0, 0};
+  static const int w05[] = {30, 10, 12, 8, 0, 3, 3, 3, 1, 8, 1, 1, 0, 2, 2, 0, 0, 0, 1, 0, 0, 0, 0};
   static const char* names[] = {"append", "prepend", "insert", "rmit", "rmidx", "rmval", "rmfront", "rmback", "clear", "swap", "copy", "assign", "selfassign",
                                 "appendall", "insall", "resize", "reserve", "sort", "find", "appendptr", "selfref", "recreate", "eq"};
   const int* w = pf == P_C04 ? w04 : pf == P_C05 ? w05 : w03;
